@@ -144,6 +144,10 @@ def check_failure(label, block, expect, s_period, red, tol, cap, steady=False):
     tr, terr = solve(text, red, cap, trace=L, steady=steady)
     if terr == 'HANG':
         viols.append(core.violation('unbounded-work', 'traced solve did not stop within 30 s', case))
+    elif terr is None or type(terr) is not type(err):
+        # tracing the failing period only records: the failure must be reported in the same way
+        viols.append(core.violation('tracing-changes-failure', 'untraced solve raises %s, the solve with the failing period traced %s' % (
+            type(err).__name__, 'returns normally' if terr is None else 'raises ' + type(terr).__name__), case))
     else:
         sweeps = len(tr.TimeSeriesStepTrace.get('iteration', []))
         if sweeps > cap + 1:
@@ -297,13 +301,41 @@ def declaration_cases():
         bb = FixedMarginBusiness(b, 'BUS'); Household(b, 'HH'); Market(b, 'LAB'); Market(b, 'GOOD'); ConsolidatedGovernment(b, 'GOV')
         g.AddSupplier(bb, '0.2*' + h.GetVariableName('INC')); g.AddSupplier(ba); return m
 
+    def two_suppliers_one_without_balance():
+        # two sectors of the country declare the supply variable of a market that has no AddSupplier(); one of them keeps no financial balance
+        m = Model(); c = Country(m, 'CO'); ConsolidatedGovernment(c, 'GOV'); Household(c, 'HH'); Market(c, 'GOOD'); Market(c, 'LAB')
+        FixedMarginBusiness(c, 'BUS')
+        a = Sector(c, 'AGENCY', has_F=False); a.AddVariable('SUP_LAB', 'agency labour', '10.'); return m
+
+    def two_suppliers_plain_sectors():
+        m = Model(); c = Country(m, 'CO'); ConsolidatedGovernment(c, 'GOV'); Household(c, 'HH'); Market(c, 'GOOD'); Market(c, 'LAB')
+        FixedMarginBusiness(c, 'BUS')
+        a = Sector(c, 'AGENCY', has_F=True); a.AddVariable('SUP_LAB', 'agency labour', '10.'); return m
+
+    def cross_residual_supplier_no_ext():
+        # the market's residual (and only) supplier lives in another currency zone
+        m = Model(); a = Country(m, 'AA'); b = Country(m, 'BB')
+        ConsolidatedGovernment(a, 'GOV'); Household(a, 'HH'); g = Market(a, 'GOOD')
+        bb = FixedMarginBusiness(b, 'BUS'); Household(b, 'HH'); Market(b, 'LAB'); Market(b, 'GOOD'); ConsolidatedGovernment(b, 'GOV')
+        g.AddSupplier(bb); return m
+
+    def cross_residual_with_home_share_no_ext():
+        m = Model(); a = Country(m, 'AA'); b = Country(m, 'BB')
+        ConsolidatedGovernment(a, 'GOV'); h = Household(a, 'HH'); ba = FixedMarginBusiness(a, 'BUS'); Market(a, 'LAB'); g = Market(a, 'GOOD')
+        bb = FixedMarginBusiness(b, 'BUS'); Household(b, 'HH'); Market(b, 'LAB'); Market(b, 'GOOD'); ConsolidatedGovernment(b, 'GOV')
+        g.AddSupplier(ba, '0.2*' + h.GetVariableName('INC')); g.AddSupplier(bb); return m
+
     def gold_no_ext():
         m = Model(); c = Country(m, 'CO'); GoldStandardGovernment(c, 'GOV'); Household(c, 'HH'); FixedMarginBusiness(c, 'BUS')
         Market(c, 'LAB'); Market(c, 'GOOD'); return m
     return [('duplicate-country', dup_country), ('duplicate-sector', dup_sector), ('dunder-addvariable', dunder_addvar),
             ('dunder-name-parameter', dunder_param), ('dunder-sector-code', dunder_sector_code), ('market-without-supplier', no_supplier),
             ('market-two-suppliers', two_suppliers), ('cross-flow-without-external', cross_flow_no_ext),
-            ('cross-supplier-without-external', cross_supplier_no_ext), ('gold-without-external', gold_no_ext)]
+            ('cross-supplier-without-external', cross_supplier_no_ext), ('gold-without-external', gold_no_ext),
+            ('market-two-suppliers-one-without-balance', two_suppliers_one_without_balance),
+            ('market-two-suppliers-plain-sector', two_suppliers_plain_sectors),
+            ('cross-residual-supplier-without-external', cross_residual_supplier_no_ext),
+            ('cross-residual-supplier-with-home-share-without-external', cross_residual_with_home_share_no_ext)]
 
 
 def check_declaration(label, fn):
